@@ -83,7 +83,8 @@ struct Gram {
   enum Kind { JSGF, FSG, ALIGN } kind = JSGF;
   std::string text;                    // what is handed to the library
   fsa::Fsa own;                        // the harness' own acceptor of the grammar
-  std::vector<std::string> alignWords; // ALIGN only
+  std::vector<std::string> alignWords; // ALIGN only (base forms)
+  bool namesVariant = false;           // some word is written as a numbered pronunciation variant, e.g. the(2)
   std::string desc;
 };
 
@@ -91,6 +92,14 @@ inline std::string baseForm(const std::string &w) {
   size_t p = w.find('(');
   if (p == std::string::npos || p == 0 || w.back() != ')') return w;
   return w.substr(0, p);
+}
+
+// a numbered pronunciation variant of mini.dic that a grammar may name explicitly ("" if the word has none)
+inline std::string explicitVariant(const std::string &w, uint32_t sel) {
+  static const std::map<std::string, int> nalt = {{"a", 2}, {"an", 2}, {"and", 2}, {"are", 2}, {"for", 3}, {"going", 2}, {"on", 2}, {"or", 2}, {"the", 2}, {"to", 3}, {"won", 2}};
+  auto it = nalt.find(w);
+  if (it == nalt.end()) return "";
+  return w + "(" + std::to_string(2 + (int)(sel % (uint32_t)(it->second - 1))) + ")";
 }
 
 inline Gram genGrammar(Choices &c, int wJsgf = 4, int wFsg = 4, int wAlign = 2, const std::vector<std::string> *extra = nullptr) {
@@ -160,8 +169,17 @@ inline Gram genGrammar(Choices &c, int wJsgf = 4, int wFsg = 4, int wAlign = 2, 
         t << "TRANSITION " << from << " " << to << " " << p << "\n";
         g.own.arcs.push_back({from, to, "", 0});
       } else {
-        const std::string &w = words[(size_t)c.range(0, (int64_t)words.size() - 1)];
-        t << (c.coin(50) ? "TRANSITION " : "T ") << from << " " << to << " " << p << " " << w << "\n";
+        // one choice: the remainder picks the word as before; one quotient value in three names a numbered
+        // pronunciation variant explicitly when the word has one (the harness' own acceptor keeps the base form:
+        // a hypothesis is made of base forms)
+        uint32_t wr = c.raw();
+        const std::string &w = words[(size_t)(wr % words.size())];
+        std::string spelled = w;
+        if (!extra && (wr / words.size()) % 3 == 2) {
+          std::string v = explicitVariant(w, wr / (3 * (uint32_t)words.size()));
+          if (!v.empty()) spelled = v, g.namesVariant = true;
+        }
+        t << (c.coin(50) ? "TRANSITION " : "T ") << from << " " << to << " " << p << " " << spelled << "\n";
         g.own.arcs.push_back({from, to, w, 0});
       }
     }
@@ -177,13 +195,18 @@ inline Gram genGrammar(Choices &c, int wJsgf = 4, int wFsg = 4, int wAlign = 2, 
     g.own.start = 0;
     g.own.fin = n;
     for (int i = 0; i < n; ++i) {
-      std::string w;
+      std::string w, spelledAs;
       // bias: the words of the bundled recording in order
       if (!extra && c.coin(50) && i < 4) w = vocab()[(size_t)i];
-      else w = words[(size_t)c.range(0, (int64_t)words.size() - 1)];
+      else {
+        uint32_t wr = c.raw();
+        w = words[(size_t)(wr % words.size())];
+        if (!extra && (wr / words.size()) % 3 == 2) spelledAs = explicitVariant(w, wr / (3 * (uint32_t)words.size()));
+      }
       g.alignWords.push_back(w);
       if (i) t += WS[c.weighted({8, 1, 1, 1, 1})];
-      t += w;
+      if (!spelledAs.empty()) g.namesVariant = true;
+      t += spelledAs.empty() ? w : spelledAs;
       g.own.arcs.push_back({i, i + 1, w, 0});
     }
     if (c.coin(20)) t += "\n";
